@@ -299,8 +299,15 @@ class Escape:
         if s.exc is None:
             items = set(st.caught[-1]) if st.caught else set()
             return self._probe_tag(s, st, items)
-        out = self._expr(s.exc, st)
         e = s.exc
+        if isinstance(e, ast.Call) and any(
+                t[0] == "func" for t in self.repo.resolve_call(e, st.fi, self.plat)) \
+                and not (dotted(e.func) or "").split(".")[-1] in EXC_PARENTS:
+            out = set()
+            for a in list(e.args) + [k.value for k in e.keywords]:
+                out |= self._expr(a, st)
+        else:
+            out = self._expr(s.exc, st)
         if isinstance(e, ast.Name):
             if e.id in st.hvars:
                 return out | self._refine(s, st, e.id, set(st.hvars[e.id]))
@@ -333,20 +340,117 @@ class Escape:
         return out | {Exc("?", "explicit", site)}
 
     def _exc_factory(self, f, call, st, site):
-        """`raise f(err, ...)`: exception instances returned by f."""
-        out = set()
-        for r in ast.walk(f.node):
-            if isinstance(r, ast.Return) and isinstance(r.value, ast.Call):
-                cn = dotted(r.value.func)
-                if cn:
-                    out.add(Exc(cn.split(".")[-1], "explicit", site))
-        # f itself may raise (e.g. `raise exc` of its parameter)
-        fst = State(f)
+        """`raise f(err, ...)`: run the factory abstractly once per caught item:
+        isinstance()/errno tests on its first parameter are decided from the
+        item's class (three-valued), `return X(...)` yields an explicit X,
+        `raise <param>` re-raises the item."""
         params = [a.arg for a in f.node.args.args]
+        items = set()
         for i, a in enumerate(call.args):
-            if isinstance(a, ast.Name) and a.id in st.hvars and i < len(params):
-                fst.params_exc[params[i]] = set(st.hvars[a.id])
-        out |= self._body(f, fst)
+            if isinstance(a, ast.Name) and a.id in st.hvars and i == 0:
+                items = set(st.hvars[a.id])
+        if not items or not params:
+            out = set()
+            for r in ast.walk(f.node):
+                if isinstance(r, ast.Return) and isinstance(r.value, ast.Call):
+                    cn = dotted(r.value.func)
+                    if cn:
+                        out.add(Exc(cn.split(".")[-1], "explicit", site))
+            return out
+        out = set()
+        for it in items:
+            out |= self._run_factory(f, params[0], it, site)
+        return out
+
+    ERRNO_CLASS = {"ESRCH": "ProcessLookupError", "ENOENT": "FileNotFoundError",
+                   "EPERM": "PermissionError", "EACCES": "PermissionError"}
+
+    def _test3(self, test, var, item, fi):
+        """True / False / None for a test about exception variable `var` whose
+        value has class item.cls ('OSError' = any other errno)."""
+        generic = item.cls == "OSError"
+        if isinstance(test, ast.UnaryOp) and isinstance(test.op, ast.Not):
+            v = self._test3(test.operand, var, item, fi)
+            return None if v is None else not v
+        if isinstance(test, ast.BoolOp):
+            vals = [self._test3(v, var, item, fi) for v in test.values]
+            if isinstance(test.op, ast.Or):
+                if any(v is True for v in vals):
+                    return True
+                return False if all(v is False for v in vals) else None
+            if any(v is False for v in vals):
+                return False
+            return True if all(v is True for v in vals) else None
+        if isinstance(test, ast.Call) and dotted(test.func) == "isinstance" \
+                and dotted(test.args[0]) == var:
+            cs = self._class_names(test.args[1])
+            if any(self._matches(item.cls, {c}) for c in cs):
+                return True
+            return False
+        if isinstance(test, ast.Compare) and len(test.ops) == 1:
+            l, r = dotted(test.left), test.comparators[0]
+            if l in (f"{var}.errno",):
+                names = [dotted(x) for x in (r.elts if isinstance(r, (ast.Set, ast.Tuple, ast.List))
+                                             else [r])]
+                classes = {self.ERRNO_CLASS.get((n or "").split(".")[-1]) for n in names}
+                pos = isinstance(test.ops[0], (ast.Eq, ast.In))
+                if item.cls in classes:
+                    return pos
+                if generic:
+                    return None if None in classes else (not pos)
+                return not pos
+            if l in (f"{var}.winerror",):
+                # Windows error codes other than the errno-mapped ones arrive
+                # as the generic OSError class
+                return None if generic else False
+        if isinstance(test, ast.Call) and test.args and dotted(test.args[0]) == var:
+            tg = self.repo.resolve_call(test, fi, self.plat)
+            for t in tg:
+                if t[0] == "func":
+                    h = t[1]
+                    hp = [a.arg for a in h.node.args.args]
+                    rets = [r.value for r in ast.walk(h.node) if isinstance(r, ast.Return)
+                            and r.value is not None]
+                    if len(rets) == 1 and hp:
+                        return self._test3(rets[0], hp[0], item, h)
+        return None
+
+    def _run_factory(self, f, var, item, site):
+        out = set()
+
+        def block(stmts):
+            """returns True if control may fall through"""
+            for s in stmts:
+                if isinstance(s, (ast.Assert, ast.Expr, ast.Pass)):
+                    continue
+                if isinstance(s, ast.Return):
+                    if isinstance(s.value, ast.Call) and dotted(s.value.func):
+                        out.add(Exc(dotted(s.value.func).split(".")[-1], "explicit", site))
+                    elif s.value is not None and dotted(s.value) == var:
+                        out.add(item)
+                    return False
+                if isinstance(s, ast.Raise):
+                    if s.exc is not None and dotted(s.exc) == var:
+                        out.add(item)
+                    elif isinstance(s.exc, ast.Call) and dotted(s.exc.func):
+                        out.add(Exc(dotted(s.exc.func).split(".")[-1], "explicit", site))
+                    return False
+                if isinstance(s, ast.If):
+                    v = self._test3(s.test, var, item, f)
+                    ft = True
+                    if v is True:
+                        ft = block(s.body)
+                    elif v is False:
+                        ft = block(s.orelse)
+                    else:
+                        a = block(s.body)
+                        b = block(s.orelse)
+                        ft = a or b
+                    if not ft:
+                        return False
+                    continue
+            return True
+        block(f.node.body)
         return out
 
     def _refine(self, s, st, var, items):
@@ -454,9 +558,18 @@ class Escape:
                     names.add(n.id)
                     if depth < 3:
                         for a in asg.get(n.id, []):
-                            v = getattr(a, "value", None) or getattr(a, "iter", None)
-                            if v is not None:
-                                collect(v, depth + 1)
+                            v = getattr(a, "value", None)
+                            # follow only path construction: a value *returned* by
+                            # a call (or iterated from one) is data, not a target
+                            if v is None or isinstance(a, (ast.For, ast.With)):
+                                continue
+                            if isinstance(v, ast.Call) and (dotted(v.func) or "") not in (
+                                    "os.path.join", "str", "pjoin", "os.path.dirname",
+                                    "os.path.basename") and not (
+                                    isinstance(v.func, ast.Attribute) and v.func.attr in (
+                                        "format", "join", "encode", "decode")):
+                                continue
+                            collect(v, depth + 1)
                 elif isinstance(n, ast.Attribute) and d:
                     names.add(d)
         for a in list(call.args) + [k.value for k in call.keywords]:
@@ -549,7 +662,12 @@ class Escape:
                 if name in PRIMS:
                     org = self._origin(c, st)
                     self.sites[site] = org
-                    for cls in PRIMS[name]:
+                    classes = PRIMS[name]
+                    if name == "os.kill" and len(c.args) > 1 \
+                            and isinstance(c.args[1], ast.Constant) and c.args[1].value == 0:
+                        # kill(2) with signal 0: only ESRCH / EPERM are possible
+                        classes = ("ProcessLookupError", "PermissionError", "OverflowError")
+                    for cls in classes:
                         o = "arg" if cls == "OverflowError" else org
                         out.add(Exc(cls, o, site))
             elif t[0] in ("class",):
